@@ -292,3 +292,27 @@ func TestVerifRaftx(t *testing.T) {
 }
 
 var _ = pb.NoOP
+
+// TestVerifRaftxCongruence probes the canonical state description of the
+// configurations of one part (VERIF_PART): see verifkit.CongruenceProbe.
+func TestVerifRaftxCongruence(t *testing.T) {
+	if os.Getenv("VERIF_CONGRUENCE") == "" {
+		t.Skip("development aid")
+	}
+	silence()
+	n, depth := 3000, 1
+	fmt.Sscanf(os.Getenv("VERIF_CONGRUENCE_STATES"), "%d", &n)
+	fmt.Sscanf(os.Getenv("VERIF_CONGRUENCE_DEPTH"), "%d", &depth)
+	for _, cfg := range configsFor(os.Getenv("VERIF_PART"), false) {
+		if f := os.Getenv("VERIF_ONLY_CFG"); f != "" && !strings.Contains(cfg.Name, f) {
+			continue
+		}
+		cfg := cfg
+		desc := newCluster(cfg)
+		states, compared, bad := verifkit.CongruenceProbe(func() verifkit.Instance { return xinst{newCluster(cfg)} }, desc.describe, n, depth)
+		fmt.Printf("CONGRUENCE %s: states=%d pairs=%d disagreements=%d\n", cfg.Name, states, compared, len(bad))
+		for _, b := range bad {
+			fmt.Println(b)
+		}
+	}
+}
